@@ -46,7 +46,13 @@ func ctlJobs(tier string) []Job {
 					if c != "close" && (capa == 4 || capa == 1 && cons != "none" || cons == "both-stop2") {
 						continue // quick: the full capacity x consumer product only for the plain Close program
 					}
-					if cons == "none" || (small && capa == -1) {
+					if h == "fresh" && !(c == "close" || c == "add-close" || c == "close||add" || c == "close||close") {
+						continue // quick: nothing-added-yet only with the programs in which the first Add matters
+					}
+					if h == "movein" && (c == "add-close" || c == "remove-close" || c == "list-close" || c == "close||remove") {
+						continue // quick: the move-in history with half of the programs
+					}
+					if (cons == "none" && (capa == -1 || c == "close")) || (small && capa == -1) {
 						add(h, c, cons, capa, 2)
 					} else {
 						add(h, c, cons, capa, 1)
